@@ -14,7 +14,10 @@
 //	                       computeMutates, assignedOuter2 and the helper closure helperCallees follow it).
 //	                       The earlier parts keep refusing it.
 //	p == nil, p != nil     p a parameter or the receiver of POINTER type.  A pointer is modelled by the value
-//	                       it points to: there is no nil pointer.  The comparison is REFUSED, except in a
+//	                       it points to: there is no nil pointer.  (SINCE code_nil.go the parser topics model the
+//	                       pointer parameter `blk` of Parse as FLAG + VALUE instead — nilableTopics; what follows is
+//	                       the older mechanism, still available, no topic uses it now.)  The comparison is REFUSED,
+//	                       except in a
 //	                       topic listed in ptrNonNilTopics, which ASSUMES that the pointer parameters of its
 //	                       functions are not nil: `p == nil` ↦ False, `p != nil` ↦ True (the dead branch is
 //	                       still translated: `if False then … else …`).  TRUSTED READING, stated in the doc
@@ -104,7 +107,8 @@ func init() {
 }
 
 // ptrNonNilTopics: the topics that ASSUME their pointer parameters are not nil (see the header).
-var ptrNonNilTopics = map[string]bool{"HPParse": true, "BHPParse": true, "DHPParse": true, "BDHPParse": true, "BUPParse": true}
+// (The parser topics were listed here until code_nil.go; they are topics of nilableTopics now.)
+var ptrNonNilTopics = map[string]bool{}
 
 // ptrNilCompare: `p == nil` / `p != nil` (either order) where p is a parameter (or the receiver) of
 // pointer type of the function being translated.  The value model has no nil pointers: outside a
@@ -138,6 +142,9 @@ func (c *codegen) ptrNilCompare(x *ast.BinaryExpr) (string, bool) {
 		return "", false
 	}
 	v := c.lookup(id.Name)
+	if r, ok := c.nilCompare(x, v); ok { // code_nil.go: a nilable parameter (flag + value); before the ptrVars test (pointer identity)
+		return r, true
+	}
 	if v == nil || !c.cur.ptrVars[v] {
 		return "", false
 	}
